@@ -105,6 +105,24 @@ func hasCustomFunc(customFunc *config.Func, t object.ObjectType, funcName string
 	}
 }
 
+// maxRepeatLen is the length in bytes of the longest string
+// that a built-in function builds by repeating another string
+const maxRepeatLen = 1 << 26
+
+// repeatStr repeats s count times. It reports false instead of
+// panicking when the result would be longer than maxRepeatLen
+func repeatStr(s string, count int) (string, bool) {
+	if count <= 0 || s == "" {
+		return "", true
+	}
+
+	if count > maxRepeatLen/len(s) {
+		return "", false
+	}
+
+	return strings.Repeat(s, count), true
+}
+
 func addDecimals(receiver object.Object, objType object.ObjectType, args ...object.Object) (object.Object, error) {
 	var val string
 
@@ -152,7 +170,12 @@ func addDecimals(receiver object.Object, objType object.ObjectType, args ...obje
 		return &object.Str{Value: val}, nil
 	}
 
-	zeros := strings.Repeat("0", decimals)
+	zeros, ok := repeatStr("0", decimals)
+
+	if !ok {
+		msg := fmt.Sprintf(fail.ErrFuncResultTooLong, "decimal", objType, maxRepeatLen)
+		return nil, errors.New(msg)
+	}
 
 	return &object.Str{Value: val + separator + zeros}, nil
 }
